@@ -350,7 +350,7 @@ def hardware_for(draw, spec, configs=("accel",), force=None):
         if draw(st.integers(0, 4)) > 0 or force.get("compute"):
             entry.append({"component": names["mul"], "bindings": [{"op": "mul"}]})
         if draw(st.integers(0, 4)) > 0:
-            if not force.get("compute") and entry[-1].get("component") == names["mul"] and draw(st.integers(0, 7)) == 0:
+            if not force.get("compute") and entry[-1].get("component") == names["mul"] and draw(st.sampled_from([False] * 15 + [True])):
                 # one functional unit bound to both operations (a MAC): the pinned compiler does not implement it (an assertion,
                 # counted as a crash and dropped); a compiler that does must count and print it correctly
                 entry[-1]["bindings"].append({"op": "add"})
